@@ -269,5 +269,33 @@ def afterAdd : W := run (.add [47, 100]) { tape := tapeAdd }
 example : afterAdd.s.openFds = [6, 5] ∧ afterAdd.bad = none ∧ afterAdd.tape.length = 0 ∧ afterAdd.s.byUser = [[47, 100]] ∧
     (run .close { s := afterAdd.s }).s.openFds = [] := by decide
 
+/-!
+### What the theorems above do NOT cover: `Close` between the two halves of an `addWatch` (finding F16)
+
+`Op` treats every API call as atomic. The implementation holds no lock across `addWatch`: the closed test, the
+`unix.Open`, and `register` + `watches.add` are three separate steps, and `Close` can run between them.
+`closeDuringAdd` composes the model's own halves in that order — `openNew` (the closed test was passed before),
+the whole of `Close`, then `finishAdd` — and the clause "once the Watcher is closed it holds no descriptor" is
+**false** for that schedule, in the model exactly as in the implementation (kq stage, corpus session 16:
+`unix.OpenHook` runs `Close()` while `Add` is inside `unix.Open`). Kept as a theorem so that the gap between the
+atomic theorems and the concurrent implementation is stated, not implied; recorded as known finding F16.
+-/
+def closeDuringAdd (name : Path) (w : W) : Option W :=
+  match openNew (clean name) {} false w with
+  | (.ok (n, i, a), w1) => some (finishAdd (watchDirectoryFiles (addWatch fuel)) n i a noteAllEvents (close w1).2).2
+  | _ => none
+
+def raceW : W := { tape := [.lstat [47, 102] (.ok .file), .opn [47, 102] (.ok 3)] }
+
+/-- the Watcher is closed, descriptor 3 is open, registered with the kernel and listed in the table: leaked -/
+theorem close_during_add_leaks :
+    (closeDuringAdd [47, 102] raceW).map
+        (fun w3 => (w3.s.closed, w3.s.openFds, w3.s.knotes.map (·.1), w3.s.wd.map (·.1), w3.bad)) =
+      some (true, [3], [3], [3], none) := by decide +kernel
+
+/-- …whereas the same two calls one after the other (either order) leave nothing open -/
+example : (run .close (run (.add [47, 102]) raceW)).s.openFds = [] ∧
+    (run (.add [47, 102]) (run .close raceW)).s.openFds = [] := by decide +kernel
+
 end Full
 end C17
